@@ -172,9 +172,21 @@ func (ctrlEncodeStream) Oracle(c Case, impl string) (bool, string, string) {
 	if err != nil {
 		return false, "cannot build request", c.Kind + "/harness"
 	}
-	// splice the encoded control in as raw bytes: [0] { enc }
-	ctx := append(encIdent(2, true, 0), encLength(len(enc), 0)...)
-	ctx = append(ctx, enc...)
+	// splice the encoded control in as raw bytes: [0] { enc } - alone, twice (two controls sharing an OID), or twice
+	// around another control: any number and order of controls on one message must arrive, in order
+	variant := (crc32.ChecksumIEEE([]byte(c.Line)) >> 3) & 3
+	list, wantList := enc, c.Expect
+	other := Ctl{Kind: "vchumust"}
+	switch variant {
+	case 1:
+		list = append(append([]byte(nil), enc...), enc...)
+		wantList = c.Expect + ";" + c.Expect
+	case 2:
+		list = append(append(append([]byte(nil), enc...), other.Node().Ser()...), enc...)
+		wantList = c.Expect + ";" + other.Render() + ";" + c.Expect
+	}
+	ctx := append(encIdent(2, true, 0), encLength(len(list), 0)...)
+	ctx = append(ctx, list...)
 	body := append(base.Kids[0].Ser(), base.Kids[1].Ser()...)
 	body = append(body, ctx...)
 	full := append(encIdent(0, true, 16), encLength(len(body), 0)...)
@@ -182,7 +194,7 @@ func (ctrlEncodeStream) Oracle(c Case, impl string) (bool, string, string) {
 	got := safely(func() string { return decodeFrame(full) })
 	rq.Ctls = []Ctl{ctl}
 	rq.Ctls[0].ExplicitCrit = false
-	want := strings.Replace(rq.Expected("(cn=x)"), "ctrls=["+ctl.Render()+"]", "ctrls=["+c.Expect+"]", 1)
+	want := strings.Replace(rq.Expected("(cn=x)"), "ctrls=["+ctl.Render()+"]", "ctrls=["+wantList+"]", 1)
 	if got != want {
 		return false, "gldap's request decoder recovers " + got + " want " + want, c.Kind + "/request-direction"
 	}
